@@ -16,11 +16,12 @@ from sim.shrink import with_key
 def set_taus(rng, spec, dt, steps):
     for nt in spec['nts'].values():
         for opk, var in nt['var'].items():
-            if spec['ops'][opk]['lib'] in ('dd', 'ddt'):
+            if spec['ops'][opk]['lib'] in ('dd', 'ddt', 'cdd'):
                 n = rng.randint(2, max(3, steps // 3))
                 var['tau'] = (n + rng.choice([0.0, 0.0, rng.uniform(-0.4, 0.4)])) * dt
                 var['a'] = rng.randint(4, 40) / 16
-                var['c'] = rng.randint(-8, 8) / 16
+                if spec['ops'][opk]['lib'] != 'cdd':
+                    var['c'] = rng.randint(-8, 8) / 16
 
 
 class C10(Check):
@@ -56,7 +57,8 @@ class C10(Check):
         dt = rng.choice([1e-3, 0.01, 0.02])
         steps = rng.randint(20, 80)
         edges_mode = stratum in ('S-edges', 'S-edges-vec')
-        libs = ('lin', 'leak', 'integ') if edges_mode else rng.choice([('dd',), ('ddt',), ('dd', 'lin'), ('ddt', 'dd', 'lin')])
+        libs = ('lin', 'leak', 'integ') if edges_mode else rng.choice([('dd',), ('ddt',), ('dd', 'lin'), ('ddt', 'dd', 'lin'),
+                                                                         ('cdd',)])
 
         def delays(r):
             if edges_mode and r.random() < 0.7:
@@ -79,6 +81,8 @@ class C10(Check):
                                      {'method': 'RK45', 'rtol': 1e-6}])}
         if stratum == 'S-edges':
             cfg['vectorize'] = False
+        if 'cdd' in libs and cfg['level'] == 'run' and cfg['solver'] == 'scipy':
+            cfg['solver'] = 'euler'      # scipy's dopri5 driver is real-valued: complex delayed models go through euler/heun
         return {'spec': spec, 'cfg': cfg}
 
     # ---------------------------------------------------------------------------------------------------
@@ -95,12 +99,17 @@ class C10(Check):
         def V(law, cls, key, detail):
             res['violations'].append({'law': law, 'cls': cls, 'key': key, 'detail': detail})
         net = models.RefNet(spec)
+        prec = 'complex128' if any(i_['lib'] == 'cdd' for i_ in net.inst.values()) else 'float64'
+
+        def num(x):
+            x = complex(x)
+            return x.real if x.imag == 0 else x
         if cfg.get('emulate') == 'tau_first' and cfg['vectorize']:
             # defect model of KF-C10-vectorized-tau-first-element: every instance of a vectorized delayed operator uses
             # the delay of the first declared instance (its own component of the history)
             first = {}
             for (n_, o_), i_ in net.inst.items():
-                if i_['lib'] in ('dd', 'ddt'):
+                if i_['lib'] in ('dd', 'ddt', 'cdd'):
                     first.setdefault(o_, i_['p']['tau'])
                     i_['p']['tau'] = first[o_]
         names = net.state_names
@@ -112,7 +121,7 @@ class C10(Check):
         has_dedge = any(a.get('delay') for _, _, a in net.edges)
         if has_dedge:
             bump('delayed_edge_dde')
-        has_delay = has_dedge or bool(libs & {'dd', 'ddt'})
+        has_delay = has_dedge or bool(libs & {'dd', 'ddt', 'cdd'})
         dt, steps = cfg['dt'], cfg['steps']
         T = dt * steps
         decl = net.y0()
@@ -138,7 +147,7 @@ class C10(Check):
             bump('func_level')
             adaptive = cfg['adaptive_func']
             try:
-                f, args, anames, smap = c.get_run_func('vf', dt, vectorize=cfg['vectorize'], float_precision='float64',
+                f, args, anames, smap = c.get_run_func('vf', dt, vectorize=cfg['vectorize'], float_precision=prec,
                                                        verbose=False, solver='scipy' if adaptive else 'euler')
             except Exception as e:
                 res['discard'] = f'model refused at compile time: {type(e).__name__}: {str(e)[:80]}'
@@ -178,13 +187,13 @@ class C10(Check):
                     else:
                         V('L-call', 'loud', type(e).__name__, f'probe {pi}: raised {type(e).__name__}: {str(e)[:160]}')
                     return res
-                yn = {n: float(y[p]) for n, p in pos.items()}
+                yn = {n: num(y[p]) for n, p in pos.items()}
 
                 def past(name, d):
                     return 100.0 * (pos[name] + 1) + (t_time - d)
                 want = net.rhs(yn, past=past)
                 for n in names:
-                    g = float(r[pos[n]])
+                    g = num(r[pos[n]])
                     if abs(g - want[n]) > 1e-9 * max(1.0, abs(want[n])):
                         # decode what was read instead
                         V('L-comp', 'silent', 'vectorized' if cfg['vectorize'] else 'scalar',
@@ -195,7 +204,7 @@ class C10(Check):
                 # L-query: the set of query times is {t - tau_j}
                 taus = set()
                 for (n, o), i in net.inst.items():
-                    if i['lib'] in ('dd', 'ddt'):
+                    if i['lib'] in ('dd', 'ddt', 'cdd'):
                         taus.add(round(t_time - i['p']['tau'], 9))
                 for s_, t_, a_ in net.edges:
                     if a_.get('delay'):
@@ -235,7 +244,7 @@ class C10(Check):
         bump('run_' + cfg['solver'])
         outputs = {f'o{i}': n for i, n in enumerate(names)}
         try:
-            R = c.run(T, dt, outputs=outputs, solver=cfg['solver'], vectorize=cfg['vectorize'], float_precision='float64',
+            R = c.run(T, dt, outputs=outputs, solver=cfg['solver'], vectorize=cfg['vectorize'], float_precision=prec,
                       decorator=rec, verbose=False, backend=cfg.get('backend', 'default'),
                       **(cfg.get('run_kw', {}) if cfg['solver'] == 'scipy' else {}))
         except Exception as e:
@@ -318,22 +327,22 @@ class C10(Check):
                 def past(name, d):
                     s = tnow - d
                     if s <= 0:
-                        return float(y0v[pos[name]])
+                        return num(y0v[pos[name]])
                     # piecewise-linear interpolant of the iterates known at this step
                     j = min(int(s / dt + 1e-12), upto)
                     if j >= upto:
-                        return float(traj_y[upto][pos[name]])
+                        return num(traj_y[upto][pos[name]])
                     al = (s - j * dt) / dt
-                    return float(traj_y[j][pos[name]] + al * (traj_y[j + 1][pos[name]] - traj_y[j][pos[name]]))
+                    return num(traj_y[j][pos[name]] + al * (traj_y[j + 1][pos[name]] - traj_y[j][pos[name]]))
                 return past
             for e, (t, y, r) in enumerate(E):
                 k = e // per
                 if per == 2 and e % 2 == 1:
                     continue
-                yn = {n: float(np.asarray(y).reshape(-1)[p]) for n, p in pos.items()}
+                yn = {n: num(np.asarray(y).reshape(-1)[p]) for n, p in pos.items()}
                 want = net.rhs(yn, past=make_past(k * dt, k))
                 for n in names:
-                    g = float(np.asarray(r).reshape(-1)[pos[n]])
+                    g = num(np.asarray(r).reshape(-1)[pos[n]])
                     if abs(g - want[n]) > 1e-9 * max(1.0, abs(want[n])):
                         V('L-traj', 'silent', 'euler-replica',
                           f'step {k}: d{n}/dt = {g!r}; with delayed terms read from the piecewise-linear interpolant of the '
@@ -374,7 +383,7 @@ class C10(Check):
                 return res
             worst = 0.0
             for i, n in enumerate(names):
-                got = np.asarray(R[f'o{i}'].values, dtype=float)
+                got = np.asarray(R[f'o{i}'].values, dtype=complex if prec.startswith('complex') else float)
                 for row, t in enumerate(idx):
                     j = min(int(round(t / h)), nst)
                     d = abs(got[row] - ys[j][n])
@@ -385,7 +394,7 @@ class C10(Check):
                           f'(|diff| {d:.3e} > 1e-2*{scale:.3g})')
                         return res
             res['maxima'] = {'adaptive_dde_err_over_scale': worst}
-        min_delay = min([i['p']['tau'] for i in net.inst.values() if i['lib'] in ('dd', 'ddt')] +
+        min_delay = min([i['p']['tau'] for i in net.inst.values() if i['lib'] in ('dd', 'ddt', 'cdd')] +
                         [a['delay'] for _, _, a in net.edges if a.get('delay')] + [1e9])
         res['nontrivial'] = has_delay and T > min_delay
         res['stats'] = {'rhs_events': len(E), 'hist_updates': len(ups), 'hist_queries': len(qs)}
@@ -413,7 +422,7 @@ class C10(Check):
             net = models.RefNet(trace['spec'])
             by_op = {}
             for (n, o), i in net.inst.items():
-                if i['lib'] in ('dd', 'ddt'):
+                if i['lib'] in ('dd', 'ddt', 'cdd'):
                     by_op.setdefault(o, set()).add(i['p']['tau'])
             return any(len(t) > 1 for t in by_op.values())
 
